@@ -2485,6 +2485,38 @@ pub fn srv_conn(rec: &mut Rec, rng: &mut Rng, thorough: bool) {
         if mine != vec![format!("/c{}/later", f)] {
             rec.oracle_fail("C11", &format!("after a 400 that covered a valid and a malformed request, a later request was sent: yielded {:?}", mine), &sim.w.log);
         }
+        // C04 behind MANY interim responses: 16 / 17 / 40 small in-limit requests with Expect (each complete) and then an
+        // oversized declaration, all in one write: the client receives every 100 Continue AND the 400 with both numbers
+        for n_small in [16usize, 17, 40] {
+            let g = sim.connect(rec);
+            sim.poll(rec);
+            let lim = l2;
+            let mut bytes = vec![];
+            for _ in 0..n_small {
+                bytes.extend_from_slice(b"PUT /a HTTP/1.1\r\nExpect: 100-continue\r\nContent-Length: 1\r\n\r\nx");
+            }
+            bytes.extend_from_slice(b"PUT /b HTTP/1.1\r\nContent-Length: 99999\r\n\r\n");
+            sim.w.send(rec, g, &bytes);
+            sim.plans[g].sent_garbage = true;
+            for _ in 0..(n_small + bytes.len() / 1024 + 6) {
+                sim.poll(rec);
+                sim.w.client_read(rec, g);
+            }
+            let (resps, _) = split_responses(&sim.w.clients[g].received);
+            let n100 = resps.iter().filter(|r| r.0 == 100).count();
+            let bad: Vec<&(u16, Vec<u8>)> = resps.iter().filter(|r| r.0 == 400).collect();
+            let ok = bad.len() == 1
+                && String::from_utf8_lossy(&bad[0].1).contains("size 99999 ")
+                && String::from_utf8_lossy(&bad[0].1).contains(&format!("limit of {} ", lim))
+                && n100 >= 1;
+            if !ok {
+                rec.oracle_fail("C04", &format!("{} small Expect requests and an oversized declaration in one write (limit {}): the client received {} interim responses and {} responses with status 400", n_small, lim, n100, bad.len()), &sim.w.log);
+            }
+            // the requests in front of the violation are dropped with it or were yielded before it was read: answer what is held
+            while let Some(k) = sim.w.held.iter().position(|h| h.client == Some(g)) {
+                sim.w.held.remove(k);
+            }
+        }
         // C11 with a request in flight across the 400: R0 yielded and not yet answered, a malformed request (400), a
         // later well-formed request B; the application answers B FIRST, then R0 — the client receives the 400 and both
         // answers (the rejected request takes nothing away from the requests around it)
